@@ -504,7 +504,7 @@ func runLinzCache(a *args, res *result) {
 		if i%12 == 5 {
 			vshim.SetVirtual(true)
 			vshim.SetVNow(epoch)
-			sp := cacheSpec{Flavor: pick(r, cacheFlavors), Ctor: "New", OptMask: 1 | 2, DefExp: time.Hour, Interval: 0, NKeys: 2048}
+			sp := cacheSpec{Flavor: pick(r, cacheFlavors), Ctor: "New", OptMask: 1 | 2, DefExp: time.Hour, Interval: 0, NKeys: 20480}
 			if a.prop == "C12" {
 				sp.Flavor = pick(r, cacheFlavors[:2])
 			}
